@@ -6,8 +6,9 @@ from pyvc import native
 
 def run(rep, tier, seed):
     # P: the splice/shift kernel every structured edit is built on (shared with C11)
+    memo = [x for x in k_cache.specs('C01') if x.name in ('memo.pars', 'memo.loc', 'memo.bloc')]   # edits read these memos
     verify_all(rep, k_offset.specs('C01') + k_offset.specs_text('C01') + k_offset.specs_offset_lns('C01') +
-               k_indent.specs('C01'))
+               k_indent.specs('C01') + memo)
     k_cache.flush_structural(rep, 'C01')
     k_bistr.units_structural(rep, 'C01')   # AST column fields / offset deltas receive byte quantities by construction
     # B: runtime postcondition on the public edit API, ast.parse + own comparator as oracle
